@@ -337,7 +337,7 @@ def _explore(pa, pb, nopt, max_states, max_depth):
     return cases, len(seen)
 
 
-def _segment(rng, ops):
+def _segment(rng, ops, coalesce=True):
     """decorate a run with wire segmentation: partial deliveries (cut after IAC, or after the verb) placed just before
     the completing delivery or a few operations earlier, byte-wise deliveries, two commands coalesced in one delivery"""
     out = []
@@ -350,7 +350,7 @@ def _segment(rng, ops):
                 out.append(op)
             elif r < 0.5:
                 out.append(["dlv", op[1], "bytes"])
-            elif r < 0.6:
+            elif r < 0.6 and coalesce:
                 out.append(["dlv2", op[1]])
             else:
                 out.append(op)
@@ -364,7 +364,10 @@ def _with_segmentation(rng, case, p):
         return case
     n = len(DRAIN) if case.get("drained") else 0
     core = case["ops"][:len(case["ops"]) - n]
-    return {**case, "ops": _segment(rng, core) + case["ops"][len(core):]}
+    # outside the hypothesis an assertion can fail inside a handler; the exception then leaves dataReceived and the REST of
+    # a coalesced delivery is dropped with it (like any exception from a parser callback), which the message-at-a-time
+    # model does not describe: no coalesced deliveries there
+    return {**case, "ops": _segment(rng, core, coalesce=case.get("hyp", True)) + case["ops"][len(core):]}
 
 
 def _sync_cases(rng, tier):
@@ -378,13 +381,15 @@ def _sync_cases(rng, tier):
                   ([False, False], [True, True])]
     reqs = [a for a in _actions(1) if a[0] == "req"]
     cases = []
+    full = [([True, True], [True, True]), ([True, True], [False, False]), ([True, False], [False, True]),
+            ([False, False], [True, True])]
     for a, b in combos:
         base = {"pa": [a], "pb": [b], "hyp": True, "mode": "sync"}
-        for n in range(1, (2 if quick else 3) + 1):
+        for n in range(1, (3 if (not quick and (a, b) in full) else 2) + 1):
             for seq in itertools.product(reqs, repeat=n):
                 if all(_allowed(base, op) for op in seq):
                     cases.append({**base, "ops": [list(op) for op in seq]})
-    for _ in range(150 if quick else 3000):
+    for _ in range(150 if quick else 1500):
         nopt = rng.choice([1, 2])
         base = {"pa": [rng.choice(pols) for _ in range(nopt)], "pb": [rng.choice(pols) for _ in range(nopt)],
                 "hyp": True, "mode": "sync"}
@@ -410,9 +415,9 @@ def _gen(rng, tier):
         cs, n = _explore([a], [b], 1, 2000, 40)
         cases += cs
     # two options sharing the channels: exhaustive to a bounded depth for accepting policies, then random
-    cs, n = _explore([[True, True]] * 2, [[True, True]] * 2, 2, 60 if quick else 1500, 6 if quick else 8)
+    cs, n = _explore([[True, True]] * 2, [[True, True]] * 2, 2, 60 if quick else 500, 6 if quick else 7)
     cases += cs
-    for _ in range(300 if quick else 6000):
+    for _ in range(300 if quick else 2500):
         nopt = rng.choice([1, 2, 2, 3])
         pa = [rng.choice(pols) for _ in range(nopt)]
         pb = [rng.choice(pols) for _ in range(nopt)]
@@ -425,7 +430,7 @@ def _gen(rng, tier):
         drain = rng.random() < 0.7
         cases.append({**base, "ops": ops + (DRAIN if drain else []), "hyp": True, **({"drained": len(DRAIN)} if drain else {})})
     # outside the hypothesis (an endpoint requests what its own policy refuses): correspondence only
-    for _ in range(60 if quick else 1000):
+    for _ in range(60 if quick else 600):
         pa, pb = [rng.choice(pols)], [rng.choice(pols)]
         ops = [rng.choice(_actions(1)) for _ in range(rng.randrange(3, 20))]
         cases.append({"pa": pa, "pb": pb, "ops": ops, "hyp": False})
